@@ -8,6 +8,13 @@ Scene: physical sources live on a jittered lattice in a *global pixel frame* (th
 the truth WCS moved to the window plus a small CRVAL error; it sees the physical sources inside its
 window ('good'), sources displaced by half a lattice step from every true source ('junk': same
 footprint, never matched, never coinciding with the junk of another image), or nothing ('empty').
+
+Degenerate fits (C13, finding F26): kind 'line:<d>:<n>' is an image whose catalog is `n` sources that are
+EXACTLY collinear in its pixel frame (junk-type identities on one lattice direction `LINE_DIRS[d]`, integer /
+half-integer pixel coordinates: the convex hull of such a catalog has no area and the footprint is the whole
+image; a general fit of them raises SingularMatrixError); kind 'zerow:<p>' is a good image of which only the
+first `p` sources have a positive weight (spec['weights'] then gives every table a 'weight' column).
+spec['extra'] = {image number: [source ids]} lets a good image see additional (e.g. line) sources.
 """
 import contextlib
 import logging
@@ -18,6 +25,7 @@ SP = 60.0          # lattice step (pixels)
 JIT = 8.0          # jitter (pixels)
 SCALE = 1e-5       # deg / pixel
 FIELD = 1024
+LINE_DIRS = [(1, 0), (0, 1), (1, 1), (1, -1), (2, 1)]     # lattice directions of the collinear catalogs
 
 
 # tangent points of the scenes: an ordinary one, two whose mosaics straddle RA = 0 / 360, a high declination
@@ -92,16 +100,39 @@ class Scene:
             return np.zeros((0, 2))
         return self.truth.all_world2pix(rd, 0)
 
-    def make_image(self, slot, origin, kind, gid, err=(0.0, 0.0), name=None, weights=False, nprng=None):
-        """-> (FITSWCSCorrector, source ids in catalog order)"""
+    def line_sources(self, slot, origin, d, n):
+        """junk-type ids of `n` lattice points inside the window on the lattice line of direction
+        LINE_DIRS[d] through the lattice point nearest to the window centre"""
+        ox, oy = origin
+        ins = set(self.inside(origin))
+        idx = {(int(round(self.L[k][0] / SP)), int(round(self.L[k][1] / SP))): k for k in ins}
+        ci, cj = int(round((ox + FIELD / 2) / SP)), int(round((oy + FIELD / 2) / SP))
+        di, dj = LINE_DIRS[d % len(LINE_DIRS)]
+        pts = [idx[(ci + t * di, cj + t * dj)] for t in range(-12, 13) if (ci + t * di, cj + t * dj) in idx]
+        # the innermost n of them, in order along the line
+        drop = max(0, len(pts) - n)
+        pts = pts[drop // 2: len(pts) - (drop - drop // 2)]
+        return [self.JUNK0 * (slot + 1) + k for k in pts]
+
+    def make_image(self, slot, origin, kind, gid, err=(0.0, 0.0), name=None, weights=False, nprng=None,
+                   extra=(), maker=None):
+        """-> (corrector, source ids in catalog order); `maker(origin, err, meta)` builds the corrector
+        (default: a FITSWCSCorrector on the truth WCS moved to the window, CRVAL off by `err` pixels)"""
         from astropy.table import Table
         from tweakwcs import FITSWCSCorrector
         ox, oy = origin
-        w = mkwcs((1.0 - ox, 1.0 - oy), err, crval=self.crval)
         ins = self.inside(origin)
-        if kind == 'good':
-            ids = ins
-            xy = np.array([(self.G[k][0] - ox, self.G[k][1] - oy) for k in ids]).reshape(-1, 2)
+        wcol = None
+        if kind == 'good' or kind.startswith('zerow:'):
+            ids = list(ins) + [int(s) for s in extra]
+            xy = np.array([(self.position(k)[0] - ox, self.position(k)[1] - oy) for k in ids]).reshape(-1, 2)
+            if kind.startswith('zerow:'):
+                npos = int(kind.split(':')[1])
+                wcol = np.array([1.0 if j < npos else 0.0 for j in range(len(ids))])
+        elif kind.startswith('line:'):
+            _, d, n = kind.split(':')
+            ids = self.line_sources(slot, origin, int(d), int(n))
+            xy = np.array([(self.position(k)[0] - ox, self.position(k)[1] - oy) for k in ids]).reshape(-1, 2)
         elif kind == 'junk':
             dx, dy = self.junk_offset(slot)
             ids = [self.JUNK0 * (slot + 1) + k for k in ins]
@@ -112,10 +143,60 @@ class Scene:
         else:
             raise ValueError(kind)
         cat = Table([xy[:, 0], xy[:, 1]], names=('x', 'y'))
+        if weights:
+            cat['weight'] = np.ones(len(ids)) if wcol is None else wcol
         meta = {'catalog': cat, 'name': name if name is not None else 'im%d' % slot}
         if gid is not None:
             meta['group_id'] = gid
+        if maker is not None:
+            return maker(self, origin, err, meta), ids
+        w = mkwcs((1.0 - ox, 1.0 - oy), err, crval=self.crval)
         return FITSWCSCorrector(w, meta=meta), ids
+
+
+def jwst_maker(scene, origin, err, meta):
+    """a JWSTWCSCorrector on a mock gWCS pipeline (built by the repository's own test helper) that maps the
+    pixels of the window at `origin` to the same sky positions as the FITS WCS of that window does: tangent
+    point at the window centre, `cd` and `crpix` calibrated numerically against the FITS mapping (three
+    Newton steps; the two mappings then agree to < 3e-4 px over the window, both being gnomonic), CRVAL off by
+    `err` pixels exactly as `mkwcs` does it.  The scene geometry contract (catalog pixel = global - origin, sky
+    = truth WCS) is unchanged; the detector is FIELD x FIELD."""
+    from tweakwcs.tests.helper_correctors import make_mock_jwst_wcs
+    from tweakwcs.correctors import JWSTWCSCorrector
+    ox, oy = origin
+    fw = mkwcs((1.0 - ox, 1.0 - oy), (0.0, 0.0), crval=scene.crval)
+    c = np.array([(FIELD - 1) / 2.0, (FIELD - 1) / 2.0])
+    h = 200.0
+    pts = np.array([c, c + [h, 0], c - [h, 0], c + [0, h], c - [0, h]])
+
+    def tang(rd, rd0):
+        d = np.deg2rad(rd0[1])
+        return np.array([((rd[:, 0] - rd0[0] + 180.0) % 360.0 - 180.0) * np.cos(d), rd[:, 1] - rd0[1]]).T
+
+    def build(crpix, cd, crval):
+        w = make_mock_jwst_wcs(v2ref=v2, v3ref=v3, roll=roll, crpix=[float(crpix[0]), float(crpix[1])], cd=cd,
+                               crval=[float(crval[0]), float(crval[1])])
+        w.bounding_box = ((-0.5, FIELD - 0.5), (-0.5, FIELD - 0.5))
+        w.array_shape = (FIELD, FIELD)
+        return w
+    sky = fw.all_pix2world(pts, 0)
+    rd0 = sky[0]
+    tf = tang(sky, rd0)
+    jf = np.array([(tf[1] - tf[2]) / (2 * h), (tf[3] - tf[4]) / (2 * h)]).T
+    v2, v3, roll = 120.0, -350.0, 33.0
+    cd = np.deg2rad(SCALE) * np.eye(2)
+    crpix = c.copy()
+    for _ in range(3):
+        w = build(crpix, cd, rd0)
+        tj = tang(np.array(w(pts[:, 0], pts[:, 1])).T, rd0)
+        jj = np.array([(tj[1] - tj[2]) / (2 * h), (tj[3] - tj[4]) / (2 * h)]).T
+        cd = cd @ np.linalg.inv(jj) @ jf
+        crpix = crpix + np.linalg.inv(jj) @ tj[0]
+    w = build(crpix, cd, ((float(rd0[0]) + err[0] * SCALE) % 360.0, float(rd0[1]) + err[1] * SCALE))
+    return JWSTWCSCorrector(w, {'v2_ref': v2, 'v3_ref': v3, 'roll_ref': roll}, meta=meta)
+
+
+MAKERS = {'jwst': jwst_maker}     # name -> maker(scene, origin, err, meta) of non-FITS correctors
 
 
 def scene_with(rng, wanted):
@@ -385,7 +466,8 @@ def observe(correctors=()):
 # one scenario: real run + everything needed to drive the model with the same input
 # ------------------------------------------------------------------------------------------------
 STATUS_CODE = {'REFERENCE': 'R', 'SUCCESS': 'S', 'FAILED: empty source catalog': 'E',
-               'FAILED: not enough matches': 'M'}
+               'FAILED: not enough matches': 'M', 'FAILED: singular matrix': 'G',
+               'FAILED: not enough points': 'P', 'FAILED: Unknown error': 'U'}
 GRID = np.array([(x, y) for x in (0.0, 300.0, 511.5, 800.0, 1023.0) for y in (0.0, 256.0, 700.0, 1023.0)])
 
 REF_REGIONS = {'centre': (100, 700, 100, 700), 'east': (900, 1500, 100, 700), 'far': (5000, 5600, 5000, 5600),
@@ -450,9 +532,14 @@ def run_scenario(scene, spec, nprng):
     from astropy.table import Table
     from tweakwcs import align_wcs, XYXYMatch, FITSWCSCorrector
     ims, srcs = [], []
+    weights = bool(spec.get('weights'))
+    extra = spec.get('extra') or {}
+    makers = spec.get('makers') or []
     for k, ((origin, kind, gid), err) in enumerate(zip(spec['images'], spec['errs'])):
         c, ids = scene.make_image(k, tuple(origin), kind, real_group_label(spec, gid), err=tuple(err),
-                                  name=(spec.get('names') or [None] * (k + 1))[k])
+                                  name=(spec.get('names') or [None] * (k + 1))[k],
+                                  weights=weights, extra=extra.get(str(k), ()),
+                                  maker=MAKERS[makers[k]] if k < len(makers) and makers[k] else None)
         if spec.get('common') is not None and kind == 'good':
             ids = list(spec['common'])
             ox, oy = origin
@@ -469,6 +556,8 @@ def run_scenario(scene, spec, nprng):
         rd = scene.sky_of(ref_ids)
         if ref['kind'] == 'table':
             refcat = Table([rd[:, 0], rd[:, 1]], names=('RA', 'DEC'))
+            if weights:
+                refcat['weight'] = np.ones(len(ref_ids))
             if ref.get('ids') is not None:
                 ref_idcol = [int(i) for i in ref['ids']][:len(ref_ids)]
                 refcat['id'] = np.array(ref_idcol, dtype=int)
@@ -477,21 +566,25 @@ def run_scenario(scene, spec, nprng):
             ox, oy = ref.get('origin', (0, 0))
             w = mkwcs((1.0 - ox, 1.0 - oy), crval=scene.crval)
             xy = np.array([(scene.position(s)[0] - ox, scene.position(s)[1] - oy) for s in ref_ids]).reshape(-1, 2)
-            refcat = FITSWCSCorrector(w, meta={'catalog': Table([xy[:, 0], xy[:, 1]], names=('x', 'y')),
-                                               'name': 'refimage'})
+            rt = Table([xy[:, 0], xy[:, 1]], names=('x', 'y'))
+            if weights:
+                rt['weight'] = np.ones(len(ref_ids))
+            refcat = FITSWCSCorrector(w, meta={'catalog': rt, 'name': 'refimage'})
     before = [sky_grid(c) for c in ims]
     sky_before = [catalog_sky(c) for c in ims]
     had_info = ['fit_info' in c.meta for c in ims]
+    # the radii of the matcher are in units of the tangent plane: pixels for FITS correctors, arcsec for gWCS ones
+    ps = SCALE * 3600.0 if any(makers) else 1.0
     kw = dict(refcat=refcat, expand_refcat=spec['expand'], enforce_user_order=spec['enforce'],
               fitgeom=spec['fitgeom'], minobj=spec['minobj'],
-              match=XYXYMatch(searchrad=5, separation=0.5, tolerance=2.0) if spec['match'] else None)
+              match=XYXYMatch(searchrad=5 * ps, separation=0.5 * ps, tolerance=2.0 * ps) if spec['match'] else None)
     with observe(ims) as obs:
         try:
             out = align_wcs(ims, **kw)
             exc = None
         except Exception as e:   # noqa
             out = None
-            exc = (type(e).__name__, str(e)[:100])
+            exc = (type(e).__name__, str(e)[:160])
     after = [sky_grid(c) for c in ims]
     rec = {'sky_before': sky_before, 'sky_after': [catalog_sky(c) for c in ims], 'refcat_in': refcat,
            'spec': spec, 'srcs': srcs, 'ref_ids': ref_ids, 'ref_idcol': ref_idcol, 'exc': exc, 'obs': obs,
@@ -514,7 +607,7 @@ def candidate_positions(scene, spec):
     ids = []
     for k, (origin, kind, gid) in enumerate(spec['images']):
         ins = scene.inside(tuple(origin))
-        if kind == 'junk':
+        if kind == 'junk' or kind.startswith('line:'):
             ids += [scene.JUNK0 * (k + 1) + s for s in ins]
     ids += [int(s) for s in scene.ids]
     pos = np.array([scene.position(s) for s in ids])
@@ -548,8 +641,9 @@ def model_line(rec, minobj_eff, f2x):
     obs = rec['obs']
     toks = ['align', 'F', '1' if spec['expand'] else '0', '1' if spec['enforce'] else '0', str(minobj_eff),
             str(FITMIN[spec['fitgeom']]), '0' if spec['match'] else '1', 'I', str(len(spec['images']))]
-    for (origin, kind, gid), ids in zip(spec['images'], rec['srcs']):
-        toks += ['-' if gid is None else str(gid), str(len(ids))] + [str(s) for s in ids]
+    flags = fit_flags(spec, rec['srcs'])
+    for (origin, kind, gid), ids, fl in zip(spec['images'], rec['srcs'], flags):
+        toks += ['-' if gid is None else str(gid), str(fl), str(len(ids))] + [str(s) for s in ids]
     toks.append('R')
     if spec.get('ref') is None:
         toks.append('none')
@@ -559,6 +653,14 @@ def model_line(rec, minobj_eff, f2x):
             toks += ['1'] + [str(i) for i in rec['ref_idcol']]
         else:
             toks.append('0')
+    return ' '.join(toks + area_tokens(obs, f2x))
+
+
+def area_tokens(obs, f2x):
+    """`P … A …`: the guarded areas the real run produced (between the groups at the first ordering call
+    when no reference catalog was given; between the reference catalog and every group, keyed by the size of
+    the catalog)"""
+    toks = []
     # guarded areas between the groups (first ordering call when no reference catalog was given)
     pair = next((oc for oc in obs.order_calls if oc['fn'] == 'pair'), None)
     toks.append('P')
@@ -592,7 +694,29 @@ def model_line(rec, minobj_eff, f2x):
     toks += ['A', str(len(table))]
     for (cl, g), (ar, nf) in sorted(table.items()):
         toks += [str(cl), str(g), f2x(ar), str(nf)]
-    return ' '.join(toks)
+    return toks
+
+
+def fit_flags(spec, srcs):
+    """the model's `fitFail` flag of every image (0 none, 1 SingularMatrixError, 2 NotEnoughPointsError),
+    decided by construction: an ungrouped image with an exactly collinear catalog cannot be fitted with
+    'general'; a group whose catalogs hold fewer sources of positive weight than the geometry needs cannot be
+    fitted at all (the flag only matters when enough sources are matched)"""
+    gids = [g for _, _, g in spec['images']]
+    fmin = FITMIN[spec['fitgeom']]
+    out = []
+    for k, (origin, kind, gid) in enumerate(spec['images']):
+        members = [j for j in range(len(gids)) if gid is not None and gids[j] == gid] or [k]
+        fl = 0
+        if kind.startswith('line:') and len(members) == 1 and spec['fitgeom'] == 'general':
+            fl = 1
+        if spec.get('weights') and all(spec['images'][j][1].startswith('zerow:') or not srcs[j] for j in members):
+            npos = sum(min(int(spec['images'][j][1].split(':')[1]), len(srcs[j])) for j in members
+                       if spec['images'][j][1].startswith('zerow:'))
+            if npos < fmin and any(srcs[j] for j in members):
+                fl = 2
+        out.append(fl)
+    return out
 
 
 def parse_model(out):
@@ -670,6 +794,32 @@ def real_error_kind(exc):
     if name == 'ValueError' and 'matching is not requested' in msg:
         return 'lengthMismatch'
     return name
+
+
+# exception class the code raises for every error kind of the model (`alignentry`, `fitwcs`)
+ERR_CLASS = {'notEnoughCatalogs': 'NotEnoughCatalogs', 'emptyRefcat': 'ValueError', 'lengthMismatch': 'ValueError',
+             'fitgeomKeyError': 'KeyError', 'wcscatType': 'TypeError', 'noCatalog': 'ValueError',
+             'catalogNoXY': 'ValueError', 'fitgeomNotString': 'AttributeError', 'badFitgeom': 'ValueError',
+             'refNoCatalog': 'ValueError', 'refNoRADEC': 'KeyError', 'refcatType': 'TypeError',
+             'metaNotWritable': 'AttributeError', 'indexError': 'IndexError',
+             'fitError:singular': 'SingularMatrixError', 'fitError:notEnoughPoints': 'NotEnoughPointsError'}
+# a fragment of the message that tells apart errors of the same class
+ERR_MSG = {'emptyRefcat': 'at least one source', 'lengthMismatch': 'matching is not requested',
+           'noCatalog': 'must have a valid catalog', 'catalogNoXY': "'x' and 'y' columns",
+           'badFitgeom': "Unsupported 'fitgeom'", 'refNoCatalog': "Reference 'WCSCorrector' must contain",
+           'refNoRADEC': "'RA' and 'DEC'", 'refcatType': "Unsupported 'refcat' type",
+           'fitgeomNotString': "no attribute 'lower'"}
+
+
+def error_matches(kind, exc):
+    """does the raised exception `exc = (class name, message)` correspond to the model's error kind?"""
+    if kind is None or exc is None:
+        return kind is None and exc is None
+    name, msg = exc
+    if ERR_CLASS.get(kind) != name:
+        return False
+    frag = ERR_MSG.get(kind)
+    return frag is None or frag in msg
 
 
 def expected_groups(gids):
